@@ -211,6 +211,11 @@ func c17Concurrent(c *Ctx, i int, r *gen.R) {
 					out.Names = append(out.Names, n)
 				}
 			}
+			// the listing belongs to the caller: scribbling over it must not disturb anyone else
+			for k := range all {
+				all[k] = "\uffff"
+			}
+			_ = append(all, "\uffff", "\uffff", "\uffff", "\uffff", "\uffff")
 		}
 		ret := atomic.AddInt64(&clock, 1)
 		mu.Lock()
